@@ -30,6 +30,9 @@ pub enum Edit {
     /// every witness re-made as a valid signature of the id the body would have if it were written with shortest-form
     /// heads (the forge writes fee and change in fixed width, so that is another id than the transaction's)
     SignShortestFormId,
+    /// a sibling transaction (same recipe, another fee) is forged and validated first, then its witnesses (valid
+    /// signatures by the right keys, but of the sibling's id) are put on this body
+    WitnessesOfValidatedSibling(u8),
 }
 
 #[derive(Debug, Clone, Serialize, Deserialize)]
@@ -50,6 +53,7 @@ fn edit() -> impl Strategy<Value = Edit> {
         1 => Just(Edit::Reverse),
         1 => (any::<u16>(), prop_oneof![Just(0u8), Just(1), Just(63), Just(65), Just(32), Just(128), any::<u8>()]).prop_map(|(a, l)| Edit::ResizeSig(a, l)),
         1 => (any::<u16>(), prop_oneof![Just(0u8), Just(1), Just(31), Just(33), Just(64), any::<u8>()]).prop_map(|(a, l)| Edit::ResizeKey(a, l)),
+        1 => (1u8..200).prop_map(Edit::WitnessesOfValidatedSibling),
         1 => (40u8..60, any::<u16>(), prop_oneof![Just(0u8), Just(31), Just(33), Just(63), Just(65)], any::<bool>()).prop_map(|(k, p, l, sig)| Edit::AddWrongLength(k, p, l, sig)),
         1 => Just(Edit::SignShortestFormId),
     ]
@@ -156,6 +160,20 @@ fn check(c: &Case, obs: &mut Obs) -> Result<(), Fail> {
                     }
                 }
             }
+            Edit::WitnessesOfValidatedSibling(d) => {
+                let mut sib = c.spec.clone();
+                sib.extra_fee += *d as u32;
+                if let Ok(f2) = forge::forge(&sib) {
+                    if f2.body != f.body {
+                        let env = pp::env(era, &pp::PpTweak::default());
+                        let r2 = run::validate(era, &f2.tx, &f2.utxos, &env);
+                        if let Some(v2) = TxView::parse(&f2.tx) {
+                            wl = v2.vkey_witnesses();
+                            edited.push(if r2 == run::Outcome::Accepted { "witnesses-of-validated-sibling" } else { "witnesses-of-rejected-sibling" });
+                        }
+                    }
+                }
+            }
             Edit::AddWrongLength(k, p, l, sig) => {
                 let kk = key(*k);
                 let (mut pk, mut sg) = (kk.pk.to_vec(), kk.sk.sign(&id).to_bytes().to_vec());
@@ -216,7 +234,8 @@ fn check(c: &Case, obs: &mut Obs) -> Result<(), Fail> {
 pub fn run(s: &Session) {
     s.set_rule("TxForge transactions of Shelley-MA, Alonzo, Babbage and Conway whose verification-key witness list is edited \
         without re-signing: extra witnesses by unrelated keys (valid / invalid) inserted at any position, duplicates, reorderings, \
-        a needed one dropped, a signature or key corrupted in one bit. Oracle (ed25519-dalek + own Blake2b): accepted => every \
+        a needed one dropped, a signature or key corrupted in one bit or resized, witnesses re-made over another encoding of the \
+        body, witnesses of a sibling transaction that was validated just before. Oracle (ed25519-dalek + own Blake2b): accepted => every \
         witness verifies against the transaction id, every key-locked spent input and collateral input has a witness from its \
         payment key, every required signer has one. Non-trivial = an accepted case with at least one edit");
     s.forall(
@@ -226,7 +245,7 @@ pub fn run(s: &Session) {
         check,
     );
     if !s.replaying() {
-        for e in ["add-valid", "add-invalid", "drop", "corrupt-sig", "duplicate", "reverse"] {
+        for e in ["add-valid", "add-invalid", "drop", "corrupt-sig", "duplicate", "reverse", "witnesses-of-validated-sibling"] {
             s.health(s.class_count(&format!("{e}:accepted")) + s.class_count(&format!("{e}:not-accepted")) > 0, &format!("edit {e} never generated"));
         }
     }
